@@ -62,11 +62,21 @@ Unlink(w) == /\ wpc[w] = "active"
                                 /\ otag' = [otag EXCEPT ![o] = begin[wslot[w]]] /\ oact' = [oact EXCEPT ![o] = Open]
                                 /\ q' = [q EXCEPT ![wslot[w]] = Append(@, o)]
              /\ UNCHANGED <<epoch, gcEpoch, running, begin, wpc, wslot, we, wi, held, wres, epc, ecur, ei, emin, gpc, gg, gi, sawfull>>
-Leave1(w) == /\ wpc[w] = "active" /\ held' = [held EXCEPT ![w] = {}] /\ begin' = [begin EXCEPT ![wslot[w]] = 0] /\ wpc' = [wpc EXCEPT ![w] = "leave2"]
+\* leave_thread_info: two stores, begin_epoch_ = 0 FIRST, then running_ = false (the slot may be claimed only after the second).
+\* LEAVE_SWAPPED is a defect switch (a definition, so that no configuration has to name it; MC_Epoch_bug2.cfg overrides it with SwitchOn):
+\* with the stores in the other order an enter that claims the slot between them has its published begin epoch overwritten by 0
+\* (independent seeded change C07d).
+LEAVE_SWAPPED == FALSE
+SwitchOn == TRUE
+Leave1(w) == /\ wpc[w] = "active" /\ held' = [held EXCEPT ![w] = {}] /\ wpc' = [wpc EXCEPT ![w] = "leave2"]
+             /\ IF LEAVE_SWAPPED THEN running' = [running EXCEPT ![wslot[w]] = FALSE] /\ UNCHANGED begin
+                ELSE begin' = [begin EXCEPT ![wslot[w]] = 0] /\ UNCHANGED running
              /\ oact' = [o \in Objs |-> oact[o] \ {w}]
-             /\ UNCHANGED <<epoch, gcEpoch, running, wslot, we, wi, wres, ost, otag, q, epc, ecur, ei, emin, gpc, gg, gi, sawfull>>
-Leave2(w) == /\ wpc[w] = "leave2" /\ running' = [running EXCEPT ![wslot[w]] = FALSE] /\ wpc' = [wpc EXCEPT ![w] = "idle"] /\ wslot' = [wslot EXCEPT ![w] = 0]
-             /\ UNCHANGED <<epoch, gcEpoch, begin, we, wi, held, wres, ost, otag, oact, q, epc, ecur, ei, emin, gpc, gg, gi, sawfull>>
+             /\ UNCHANGED <<epoch, gcEpoch, wslot, we, wi, wres, ost, otag, q, epc, ecur, ei, emin, gpc, gg, gi, sawfull>>
+Leave2(w) == /\ wpc[w] = "leave2" /\ wpc' = [wpc EXCEPT ![w] = "idle"] /\ wslot' = [wslot EXCEPT ![w] = 0]
+             /\ IF LEAVE_SWAPPED THEN begin' = [begin EXCEPT ![wslot[w]] = 0] /\ UNCHANGED running
+                ELSE running' = [running EXCEPT ![wslot[w]] = FALSE] /\ UNCHANGED begin
+             /\ UNCHANGED <<epoch, gcEpoch, we, wi, held, wres, ost, otag, oact, q, epc, ecur, ei, emin, gpc, gg, gi, sawfull>>
 \* ---------------------------------------------------------------- epoch thread
 EVerifyStart == /\ epc = "verify" /\ epoch < MaxEpoch /\ ecur' = epoch /\ ei' = 1 /\ epc' = "vloop"
                 /\ UNCHANGED <<epoch, gcEpoch, running, begin, wpc, wslot, we, wi, held, wres, ost, otag, oact, q, emin, gpc, gg, gi, sawfull>>
